@@ -40,6 +40,8 @@ def block(pattern, k):
 
 
 def programs(tick, unit, tf, kind):
+    if kind == 'futures-iso':
+        kind = 'futures'
     w = T[tf] + 3
     out = []
     sides = ('long', 'short') if kind == 'futures' else ('long',)
@@ -52,6 +54,8 @@ def programs(tick, unit, tf, kind):
 
 
 def react_programs(tick, unit, tf, kind):
+    if kind == 'futures-iso':
+        return []
     """multi-step histories inside one trade: a partial take-profit two ticks away fills as a resting order somewhere inside a
     trading candle and its handler submits a MARKET order (get out / scale back in, then re-bracket far away)"""
     w = T[tf] + 3
@@ -118,6 +122,8 @@ def configs(quick):
         out.append(('15m', [], 'spot', ('blocks', 5, P4[:3], 6), 3))
         out.append(('30m', [['BTC-USDT', '1h']], 'futures', ('blocks', 15, P4, 4), 3))
         out.append(('1h', [], 'futures', ('blocks', 15, P4[:3], 4), 3))
+        # isolated margin, 50x: liquidations are possible (sessions in which the NORMAL run liquidates are outside the property)
+        out.append(('5m', [], 'futures-iso', ('minutes', 'UD', 8), 6))
         # route timeframes that do not divide each other (chunk = gcd, not the smaller one)
         out.append(('5m', [['BTC-USDT', '3m']], 'futures', ('blocks', 5, P4b, 3), 3))
         out.append(('45m', [['BTC-USDT', '30m']], 'futures', ('blocks', 15, P4b[:3], 6), 3))
@@ -126,6 +132,7 @@ def configs(quick):
         out.append(('1m', [], kind, ('minutes', 'UDud', 7), n))
         out.append(('3m', [], kind, ('minutes', 'UDuGg', 6), n))
         out.append(('5m', [], kind, ('blocks', 5, P5, 4), n))
+    out.append(('5m', [], 'futures-iso', ('minutes', 'UD', 10), 6))
     out.append(('3m', [['BTC-USDT', '15m']], 'futures', ('blocks', 3, P5, 5), 6))
     out.append(('15m', [['BTC-USDT', '5m']], 'futures', ('blocks', 5, P4, 6), 6))
     out.append(('15m', [], 'spot', ('blocks', 5, P4, 6), 3))
@@ -164,7 +171,12 @@ def build(minutes, tf, droutes, kind, spec, emb, fast, rem=0):
     # a session that does not end on a trading-candle boundary: rem trailing minutes (rising, so resting orders can still fill)
     w += [MIN['U']] * rem
     rows = S.make_candles(w, base + 40 * tick, tick)
+    iso = kind == 'futures-iso'
+    if iso:
+        kind = 'futures'
     cfg = {'type': kind, 'fee': 0.001 if kind == 'futures' else 0.0, 'leverage': 2, 'balance': 100 * (base + 40 * tick) * unit}
+    if iso:
+        cfg.update({'leverage': 50, 'mode': 'isolated'})
     return {'cfg': cfg, 'routes': [{'symbol': 'BTC-USDT', 'timeframe': tf, 'spec': spec}], 'data_routes': droutes,
             'candles': {'BTC-USDT': rows.tolist()}, 'fast': fast, 'observe': 0}
 
@@ -202,6 +214,10 @@ def _diff(args):
             spans[m // n] = spans.get(m // n, 0) + 1
     if any(v > 1 for v in spans.values()) or a[3]:
         out['class'] = 'ambiguous'
+        return out
+    if b[3] and not a[3]:
+        out['viols'].append(Violation('fast-liquidates-alone', {'tf': tf}, ident,
+                                      'the normal simulation has no liquidation, the fast one has %d (executed orders: normal %r, fast %r)' % (b[3], a[0][-3:], b[0][-3:])).to_json())
         return out
     if not a[0]:
         out['class'] = 'no-fills'
